@@ -6,5 +6,5 @@ P=$1; TIER=$2; shift 2
 git -C /repo apply "$P" || exit 2
 trap 'git -C /repo checkout -- .' EXIT
 for id in "$@"; do
-  /verif/check $id --tier $TIER 2>&1 | grep -E 'VIOLATION|KNOWN-FINDING|^\[check\]|Infra|signature' | head -8
+  /verif/check $id --tier $TIER 2>&1 | grep -E 'VIOLATION|KNOWN-FINDING|^\[check\]|Infra|signature|NOTE' | head -8
 done
